@@ -1,12 +1,15 @@
 (* C04 — Failures are contained and reported to the supervisor exactly once.
    Model: Loop/World.v (actor runtime: start, processing loop, four ports, lifecycle guard,
-   supervision routing: link at start, take_children/terminate, notify_supervisor, unlink).
+   supervision routing: link at start, take_children/terminate, notify_supervisor, unlink);
+   both kinds of host: Send actors (actor.rs: link after pre_start, final state reported) and
+   thread-local actors ([c_local], thread_local/inner.rs: link BEFORE pre_start, the non-Send
+   state never reported).
    The property as the executable oracle Loop/Checks.v (judge_sup / check_C04), which judges every
    supervision event a supervisor starts to handle against everything logged before it.
    Proofs in Loop/C04Proofs.v (invariant Inv4 over every step of every schedule, on top of the
    lifecycle invariant of Loop/WorldProofs.v).  Statements, pins, non-vacuity, assumptions only. *)
 From Coq Require Import List Arith Bool.
-From RV Require Import Loop.World Loop.Checks Loop.LocalChecks Loop.WorldProofs Loop.PickProofs Loop.C04Proofs.
+From RV Require Import Loop.World Loop.Checks Loop.WorldProofs Loop.PickProofs Loop.C04Proofs.
 Import ListNotations.
 
 (* For every world of scripted actors (arbitrary callback bodies and results: Ok / Err / panic,
@@ -16,14 +19,16 @@ Import ListNotations.
    to handle is accepted by the oracle: it is about an actor spawn-linked to the handler;
    ActorStarted comes only after post_start returned Ok and before anything else about that
    child; at most one terminal event per child; the terminal event is classified as the child's
-   own callbacks and the requests made of it dictate. *)
+   own callbacks and the requests made of it dictate.  [map c_local cfgs] tells the oracle which
+   actors are thread-local: their graceful ActorTerminated must NOT carry a state, that of a Send
+   actor must. *)
 Theorem C04_oracle_sound : forall cfgs msgs ls,
-  check_C04 (map c_link cfgs) (trace_of (run (init cfgs msgs) ls)) = true.
+  check_C04 (map c_link cfgs) (map c_local cfgs) (trace_of (run (init cfgs msgs) ls)) = true.
 Proof. exact C04_oracle_sound_proof. Qed.
 
 (* the same for the driver programs the E1 engine executes (settle = rounds of polls) *)
 Theorem C04_driver_programs : forall cfgs msgs rounds fuel order ops,
-  check_C04 (map c_link cfgs) (trace_of (run_dops rounds fuel order (init cfgs msgs) ops)) = true.
+  check_C04 (map c_link cfgs) (map c_local cfgs) (trace_of (run_dops rounds fuel order (init cfgs msgs) ops)) = true.
 Proof. exact C04_oracle_sound_dops. Qed.
 
 (* ---- the consequences, one by one ---- *)
@@ -56,21 +61,24 @@ Proof. intros cfgs msgs ls t1 s x t2 E. exact (no_stranger_events cfgs msgs ls t
 (* classification of the terminal event, against the child's own callback events and the
    requests logged before:
    - ActorFailed txt: the child's last callback ended with Err txt / panic txt;
-   - ActorTerminated with state and reason r: post_stop returned Ok, and stop(r) was called on the
-     child, or r = "Drained" and a drain was requested;
-   - ActorTerminated without state: no callback failed and post_stop did not complete, and either
+   - ActorTerminated with state and reason r: the child is a Send actor, post_stop returned Ok, and
+     stop(r) was called on the child, or r = "Drained" and a drain was requested;
+   - ActorTerminated without state: either no callback failed and post_stop did not complete, and
      reason "killed" and kill() was called on the child, or reason "actor_task_cancelled" and its
-     task was aborted. *)
+     task was aborted; or the child is thread-local and exited gracefully exactly as above. *)
 Theorem C04_classification : forall cfgs msgs ls t1 s t2,
   (forall c txt, trace_of (run (init cfgs msgs) ls) = t1 ++ TEnter s (Sup (SFailed c txt)) :: t2 ->
      ending_of c t1 EndNone = EndFailed txt)
   /\ (forall c r, trace_of (run (init cfgs msgs) ls) = t1 ++ TEnter s (Sup (STerminated c true r)) :: t2 ->
+     nth c (map c_local cfgs) false = false /\
      ending_of c t1 EndNone = EndGraceful /\
      (has_ev (ev_stop c r) t1 = true \/ (r = Some R_DRAINED /\ has_ev (ev_drain c) t1 = true)))
   /\ (forall c r, trace_of (run (init cfgs msgs) ls) = t1 ++ TEnter s (Sup (STerminated c false r)) :: t2 ->
-     ending_of c t1 EndNone = EndNone /\
-     ((r = Some R_KILLED /\ has_ev (ev_kill c) t1 = true) \/
-      (r = Some R_CANCELLED /\ has_ev (ev_abort c) t1 = true))).
+     (ending_of c t1 EndNone = EndNone /\
+      ((r = Some R_KILLED /\ has_ev (ev_kill c) t1 = true) \/
+       (r = Some R_CANCELLED /\ has_ev (ev_abort c) t1 = true)))
+     \/ (nth c (map c_local cfgs) false = true /\ ending_of c t1 EndNone = EndGraceful /\
+         (has_ev (ev_stop c r) t1 = true \/ (r = Some R_DRAINED /\ has_ev (ev_drain c) t1 = true)))).
 Proof.
   intros cfgs msgs ls t1 s t2. split; [|split].
   - intros c txt E. exact (classification_failed cfgs msgs ls t1 s c txt t2 E).
@@ -100,7 +108,7 @@ Theorem C04_containment : forall w l j,
 Proof. exact containment. Qed.
 
 Check (C04_oracle_sound : forall cfgs msgs ls,
-  check_C04 (map c_link cfgs) (trace_of (run (init cfgs msgs) ls)) = true).
+  check_C04 (map c_link cfgs) (map c_local cfgs) (trace_of (run (init cfgs msgs) ls)) = true).
 Check (C04_terminal_at_most_once : forall cfgs msgs ls s c,
   count_sup s (fun y => is_terminal y && Nat.eqb (about y) c)
             (trace_of (run (init cfgs msgs) ls)) <= 1).
@@ -109,63 +117,64 @@ Check (C04_containment : forall w l j,
 
 (* ---- the oracle is not vacuous: it rejects the forbidden shapes ---- *)
 Example accept_killed_child :
-  check_C04 [None; Some 0] [TKillReq 1; TEnter 0 (Sup (STerminated 1 false (Some 0)))] = true.
+  check_C04 [None; Some 0] [] [TKillReq 1; TEnter 0 (Sup (STerminated 1 false (Some 0)))] = true.
 Proof. reflexivity. Qed.
 Example reject_duplicated_terminal :
-  check_C04 [None; Some 0] [TKillReq 1; TEnter 0 (Sup (STerminated 1 false (Some 0)));
+  check_C04 [None; Some 0] [] [TKillReq 1; TEnter 0 (Sup (STerminated 1 false (Some 0)));
                             TEnter 0 (Sup (STerminated 1 false (Some 0)))] = false.
 Proof. reflexivity. Qed.
 Example reject_started_after_terminal :
-  check_C04 [None; Some 0] [TExit 1 PostStart ROk; TKillReq 1;
+  check_C04 [None; Some 0] [] [TExit 1 PostStart ROk; TKillReq 1;
                             TEnter 0 (Sup (STerminated 1 false (Some 0))); TEnter 0 (Sup (SStarted 1))] = false.
 Proof. reflexivity. Qed.
 Example reject_started_without_post_start :
-  check_C04 [None; Some 0] [TEnter 0 (Sup (SStarted 1))] = false.
+  check_C04 [None; Some 0] [] [TEnter 0 (Sup (SStarted 1))] = false.
 Proof. reflexivity. Qed.
 Example reject_killed_with_state :
-  check_C04 [None; Some 0] [TKillReq 1; TEnter 0 (Sup (STerminated 1 true (Some 0)))] = false.
+  check_C04 [None; Some 0] [] [TKillReq 1; TEnter 0 (Sup (STerminated 1 true (Some 0)))] = false.
 Proof. reflexivity. Qed.
 Example reject_stranger :
-  check_C04 [None; None] [TKillReq 1; TEnter 0 (Sup (STerminated 1 false (Some 0)))] = false.
+  check_C04 [None; None] [] [TKillReq 1; TEnter 0 (Sup (STerminated 1 false (Some 0)))] = false.
 Proof. reflexivity. Qed.
 Example reject_wrong_failure_text :
-  check_C04 [None; Some 0] [TExit 1 (Handle 7) (RPanic 5); TEnter 0 (Sup (SFailed 1 6))] = false.
+  check_C04 [None; Some 0] [] [TExit 1 (Handle 7) (RPanic 5); TEnter 0 (Sup (SFailed 1 6))] = false.
 Proof. reflexivity. Qed.
 
-(* ---- thread-local children (Loop/LocalChecks.v): the state slot of ActorTerminated is empty by
-   construction (the state is not Send); check_C04_local admits exactly that and nothing else ---- *)
+(* ---- thread-local children: the state slot of ActorTerminated is empty by construction (the
+   state is not Send); the oracle admits exactly that for them and nothing else ---- *)
 Definition tl_graceful (x : supevt) : list tev :=
   [TEnter 1 PreStart; TExit 1 PreStart ROk; TEnter 1 PostStart; TExit 1 PostStart ROk; TStopReq 1 (Some 10);
    TEnter 1 PostStop; TExit 1 PostStop ROk; TEnter 0 (Sup x)].
-Example local_accepts_graceful_without_state :
-  check_C04_local [None; Some 0] (tl_graceful (STerminated 1 false (Some 10))) = true
-  /\ check_C04 [None; Some 0] (tl_graceful (STerminated 1 false (Some 10))) = false.
+Example local_graceful_without_state :
+  check_C04 [None; Some 0] [false; true] (tl_graceful (STerminated 1 false (Some 10))) = true
+  /\ check_C04 [None; Some 0] [false; false] (tl_graceful (STerminated 1 false (Some 10))) = false.
 Proof. split; reflexivity. Qed.
 Example local_rejects_state :
-  check_C04_local [None; Some 0] (tl_graceful (STerminated 1 true (Some 10))) = false.
-Proof. reflexivity. Qed.
+  check_C04 [None; Some 0] [false; true] (tl_graceful (STerminated 1 true (Some 10))) = false
+  /\ check_C04 [None; Some 0] [false; false] (tl_graceful (STerminated 1 true (Some 10))) = true.
+Proof. split; reflexivity. Qed.
 Example local_rejects_unbacked_reason :
-  check_C04_local [None; Some 0] (tl_graceful (STerminated 1 false (Some 11))) = false
-  /\ check_C04_local [None; Some 0] (tl_graceful (STerminated 1 false (Some 0))) = false.
+  check_C04 [None; Some 0] [false; true] (tl_graceful (STerminated 1 false (Some 11))) = false
+  /\ check_C04 [None; Some 0] [false; true] (tl_graceful (STerminated 1 false (Some 0))) = false.
 Proof. split; reflexivity. Qed.
 Example local_rejects_stranger_and_duplicate :
-  check_C04_local [None; None] (tl_graceful (STerminated 1 false (Some 10))) = false
-  /\ check_C04_local [None; Some 0] (tl_graceful (STerminated 1 false (Some 10))
-                                       ++ [TEnter 0 (Sup (STerminated 1 false (Some 10)))]) = false.
+  check_C04 [None; None] [false; true] (tl_graceful (STerminated 1 false (Some 10))) = false
+  /\ check_C04 [None; Some 0] [false; true] (tl_graceful (STerminated 1 false (Some 10))
+                                             ++ [TEnter 0 (Sup (STerminated 1 false (Some 10)))]) = false.
 Proof. split; reflexivity. Qed.
 Example local_same_as_send_otherwise :
-  check_C04_local [None; Some 0] [TKillReq 1; TEnter 0 (Sup (STerminated 1 false (Some 0)))] = true
-  /\ check_C04_local [None; Some 0] [TEnter 0 (Sup (SStarted 1))] = false
-  /\ check_C04_local [None; Some 0] [TExit 1 (Handle 7) (RPanic 5); TEnter 0 (Sup (SFailed 1 6))] = false
-  /\ check_C04_local [None; Some 0] [TEnter 0 (Sup (STerminated 1 false (Some 0)))] = false.
+  check_C04 [None; Some 0] [false; true] [TKillReq 1; TEnter 0 (Sup (STerminated 1 false (Some 0)))] = true
+  /\ check_C04 [None; Some 0] [false; true] [TEnter 0 (Sup (SStarted 1))] = false
+  /\ check_C04 [None; Some 0] [false; true] [TExit 1 (Handle 7) (RPanic 5); TEnter 0 (Sup (SFailed 1 6))] = false
+  /\ check_C04 [None; Some 0] [false; true] [TEnter 0 (Sup (STerminated 1 false (Some 0)))] = false.
 Proof. repeat split; reflexivity. Qed.
 
 (* ---- and the model really runs: one supervisor, every kind of exit ---- *)
-Definition nv_child (pre : fin) := mkCfg ([], pre) ([], ROk) ([], ROk) SupDefault (Some 0).
+Definition nv_child (pre : fin) := mkCfg ([], pre) ([], ROk) ([], ROk) SupDefault (Some 0) false.
 Definition nv_cfgs : list cfg :=
-  [mkCfg ([], ROk) ([], ROk) ([], ROk) (SupScript ([], ROk)) None;
+  [mkCfg ([], ROk) ([], ROk) ([], ROk) (SupScript ([], ROk)) None false;
    nv_child ROk; nv_child ROk; nv_child ROk; nv_child ROk;
-   mkCfg ([], ROk) ([EGate 9], ROk) ([], ROk) SupDefault (Some 0);
+   mkCfg ([], ROk) ([EGate 9], ROk) ([], ROk) SupDefault (Some 0) false;
    nv_child (RErr 3)].
 Definition nv_ops : list dop :=
   [DL (LSpawn 0); DSettle; DL (LSpawn 1); DL (LSpawn 2); DL (LSpawn 3); DL (LSpawn 4);
@@ -182,14 +191,32 @@ Proof. vm_compute. reflexivity. Qed.
 
 (* a stop that carries the reason "Drained" itself is a legitimate cause of that reason *)
 Definition sd_cfgs : list cfg :=
-  [mkCfg ([], ROk) ([], ROk) ([], ROk) (SupScript ([], ROk)) None;
-   mkCfg ([], ROk) ([], ROk) ([], ROk) SupDefault (Some 0)].
+  [mkCfg ([], ROk) ([], ROk) ([], ROk) (SupScript ([], ROk)) None false;
+   mkCfg ([], ROk) ([], ROk) ([], ROk) SupDefault (Some 0) false].
 Definition sd_ops : list dop :=
   [DL (LSpawn 0); DSettle; DL (LSpawn 1); DSettle; DL (LStop 1 (Some 1)); DSettle].
 Example stop_with_reason_drained :
   hl 0 (trace_of (run_dops 6 20 [0; 1] (init sd_cfgs []) sd_ops)) = [SStarted 1; STerminated 1 true (Some 1)]
-  /\ check_C04 (map c_link sd_cfgs) (trace_of (run_dops 6 20 [0; 1] (init sd_cfgs []) sd_ops)) = true.
+  /\ check_C04 (map c_link sd_cfgs) (map c_local sd_cfgs) (trace_of (run_dops 6 20 [0; 1] (init sd_cfgs []) sd_ops)) = true.
 Proof. vm_compute. split; reflexivity. Qed.
+
+(* the same supervisor with thread-local children: the link exists BEFORE pre_start (child 2, parked in
+   pre_start when the supervisor is killed, is killed with it and reports nothing: start() failed);
+   the graceful exit of child 1 is reported without state *)
+Definition tlw_cfgs : list cfg :=
+  [mkCfg ([], ROk) ([], ROk) ([], ROk) (SupScript ([], ROk)) None true;
+   mkCfg ([], ROk) ([], ROk) ([], ROk) SupDefault (Some 0) true;
+   mkCfg ([EGate 5], ROk) ([], ROk) ([], ROk) SupDefault (Some 0) true].
+Definition tlw_ops : list dop :=
+  [DL (LSpawn 0); DSettle; DL (LSpawn 1); DL (LSpawn 2); DSettle; DL (LStop 1 (Some 10)); DSettle;
+   DL (LKill 0); DSettle].
+Example local_world :
+  let t := trace_of (run_dops 6 20 [0; 1; 2] (init tlw_cfgs []) tlw_ops) in
+  hl 0 t = [SStarted 1; STerminated 1 false (Some 10)]
+  /\ filter (fun e => match e with TCancel 2 _ | TSpawnRet 2 _ | TJoin 0 => true | _ => false end) t
+     = [TJoin 0; TCancel 2 PreStart; TSpawnRet 2 false]
+  /\ check_C04 (map c_link tlw_cfgs) (map c_local tlw_cfgs) t = true.
+Proof. vm_compute. repeat split; reflexivity. Qed.
 
 Print Assumptions C04_oracle_sound.
 Print Assumptions C04_driver_programs.
